@@ -64,6 +64,49 @@ def _block_of(parent, child):
     return None, None
 
 
+class _RenameName(ast.NodeTransformer):
+    def __init__(self, a, b):
+        self.a, self.b = a, b
+
+    def visit_Name(self, n):
+        if n.id == self.a:
+            return ast.copy_location(ast.Name(id=self.b, ctx=n.ctx), n)
+        return n
+
+
+def _element_guards(loop):
+    """Facts about the loop variable that come from how the iterated collection was built:
+    `for x in [e for e in S if c(e)]` (directly or through a local defined once) makes c(x) hold in the body."""
+    if not isinstance(loop.target, ast.Name):
+        return []
+    it = loop.iter
+    if isinstance(it, ast.Call) and isinstance(it.func, ast.Name) and it.func.id in ("sorted", "list", "reversed", "tuple") and len(it.args) == 1:
+        it = it.args[0]
+    if isinstance(it, ast.Name):
+        fn = loop
+        while fn is not None and not isinstance(fn, (ast.FunctionDef, ast.AsyncFunctionDef)):
+            fn = getattr(fn, "_parent", None)
+        if fn is None:
+            return []
+        defs = [s for s in ast.walk(fn) if isinstance(s, ast.Assign) and len(s.targets) == 1 and isinstance(s.targets[0], ast.Name)
+                and s.targets[0].id == it.id]
+        stores = [n for n in ast.walk(fn) if isinstance(n, ast.Name) and n.id == it.id and isinstance(n.ctx, ast.Store)]
+        if len(defs) != 1 or len(stores) != 1:
+            return []
+        it = defs[0].value
+        if isinstance(it, ast.Call) and isinstance(it.func, ast.Name) and it.func.id in ("sorted", "list", "reversed", "tuple") and len(it.args) == 1:
+            it = it.args[0]
+    out = []
+    if isinstance(it, (ast.ListComp, ast.GeneratorExp, ast.SetComp)) and len(it.generators) == 1 \
+            and isinstance(it.generators[0].target, ast.Name) and isinstance(it.elt, ast.Name) and it.elt.id == it.generators[0].target.id:
+        import copy
+        for c in it.generators[0].ifs:
+            from .symexec import clone
+            t = _RenameName(it.elt.id, loop.target.id).visit(clone(c))
+            out.append(Guard(ast.fix_missing_locations(t), True, "comp"))
+    return out
+
+
 def guards_of(node, stop=None):
     """Conditions known to hold whenever `node` executes, inside its function.
 
@@ -128,6 +171,8 @@ def guards_of(node, stop=None):
                         out.append(Guard(parent.test, False, "if"))
                 elif isinstance(parent, ast.While) and name == "body":
                     out.append(Guard(parent.test, True, "while"))
+                elif isinstance(parent, ast.For) and name == "body":
+                    out.extend(_element_guards(parent))
         if isinstance(parent, (ast.FunctionDef, ast.AsyncFunctionDef, ast.Lambda, ast.Module, ast.ClassDef)):
             break
         cur = parent
@@ -322,4 +367,37 @@ def block_paths(stmts, what="block", bound=PATH_BOUND):
         out.append(Path(ev, k, n))
         if len(out) > bound:
             raise AnalysisError("path bound %d exceeded in %s" % (bound, what))
+    return out
+
+
+def dnf(test, polarity=True):
+    """Disjunctive normal form of a guard: list of alternatives, each a list of (atom, polarity)."""
+    if isinstance(test, ast.UnaryOp) and isinstance(test.op, ast.Not):
+        return dnf(test.operand, not polarity)
+    if isinstance(test, ast.BoolOp):
+        conj = isinstance(test.op, ast.And) == polarity
+        parts = [dnf(v, polarity) for v in test.values]
+        if conj:
+            out = [[]]
+            for alts in parts:
+                out = [a + b for a in out for b in alts]
+                if len(out) > 256:
+                    raise AnalysisError("condition too large for DNF expansion")
+            return out
+        return [alt for alts in parts for alt in alts]
+    return [[(test, polarity)]]
+
+
+def path_scenarios(path, subst=None):
+    """All DNF scenarios of a path condition: each a list of (atom, polarity).  `subst(test, event index)` may rewrite a test
+    (e.g. replace local aliases by their definitions) before expansion."""
+    out = [[]]
+    for i, ev in enumerate(path.events):
+        if ev[0] != "cond":
+            continue
+        t = subst(ev[1], i) if subst else ev[1]
+        alts = dnf(t, ev[2])
+        out = [a + b for a in out for b in alts]
+        if len(out) > 512:
+            raise AnalysisError("path condition too large for DNF expansion")
     return out
